@@ -136,6 +136,9 @@ class World:
     @staticmethod
     def default_handler(name, req):
         vid = req.header("x-vf-id") or b""
+        if req.method == b"CONNECT":
+            # a metadata host is no tunnel end point (and a 2xx answer to CONNECT must not carry a body)
+            return {"status": 405, "headers": [("x-vf-echo", vid), ("Allow", "GET, POST, PUT")], "body": b"no tunnels here"}
         return {"status": 200, "headers": [("x-vf-echo", vid), ("content-type", "text/plain")], "body": b"echo:" + vid}
 
     def wait_listen(self, port=3080, timeout=20):
